@@ -36,20 +36,22 @@ def control_facts():
         return mir, ast
     os.makedirs(d, exist_ok=True)
     tc = _toolchain()
+    # checks may start side by side on a fresh cache: every process writes its own temporary files
+    sfx = '.tmp%d' % os.getpid()
     cmd = ['rustc'] + (['+' + tc] if tc else []) + [
         '--crate-type', 'lib', '--crate-name', 'control', '--edition', '2021', '-Zunpretty=mir',
         '-Zmir-include-spans=yes', '-Zmir-opt-level=0', '-Ztrim-diagnostic-paths=no', '-Awarnings',
         'control.rs']
-    with open(mir + '.tmp', 'wb') as fo:
+    with open(mir + sfx, 'wb') as fo:
         r = subprocess.run(cmd, cwd=CTRL_DIR, stdout=fo, stderr=subprocess.PIPE)
     if r.returncode != 0:
         raise core.CheckerError('self-test: cannot dump control MIR: ' + r.stderr.decode()[-500:])
-    os.replace(mir + '.tmp', mir)
-    with open(ast + '.tmp', 'wb') as fo:
+    os.replace(mir + sfx, mir)
+    with open(ast + sfx, 'wb') as fo:
         r = subprocess.run([astlib.ASTQ, CTRL_DIR, 'control.rs'], stdout=fo, stderr=subprocess.PIPE)
     if r.returncode != 0:
         raise core.CheckerError('self-test: astq failed on control.rs')
-    os.replace(ast + '.tmp', ast)
+    os.replace(ast + sfx, ast)
     return mir, ast
 
 
